@@ -625,6 +625,7 @@ fn record(case: &Case, out: &SimOut<Obs>, tally: &mut Tally, scen_hash: u64) {
     tally.bump("random_draws", c.n_rng);
     tally.bump("clock_reads", c.n_clock_reads);
     tally.bump("fault_clock_leap_fired", c.n_clock_jumps_fired);
+    tally.bump("simulated_time_us", c.clock_ns.saturating_sub(1_000_000_000) / 1000);
     tally.bump("random_draws_adversarial", c.n_rng_adversarial);
     tally.bump("par_calls", c.n_par_calls);
     tally.bump(&format!("pool_size_{:02}", case.cfg.pool), 1);
